@@ -110,6 +110,6 @@ RecoveredEqualsNoCrash ==
 (* every accepted block is delivered to the subscriber at least once across restarts, in height order *)
 FirstIdx(h) == CHOOSE i \in DOMAIN subLog : subLog[i] = h /\ \A j \in 1..(i - 1) : subLog[j] # h
 AtLeastOnceInOrder ==
-  /\ up => \A h \in 0..lastProc : h \in Range(subLog)
+  /\ up => \A h \in 1..lastProc : h \in Range(subLog)      \* (genesis is not an accept decision)
   /\ \A a, b \in Range(subLog) : a < b => FirstIdx(a) < FirstIdx(b)
 =============================================================================
